@@ -105,7 +105,7 @@ fn view(r: &RegistryCore, x: u64) -> View {
 
 //@ id: c06_register_two_descs_contract
 //@ prop: C06
-//@ tier: quick
+//@ tier: thorough
 //@ strength: bounded(registry state of exactly 1 registered collector; incoming collector with 2 descriptors named "a" and ""), complete in ids and dimension hashes (every u64)
 //@ fn: registry::RegistryCore::register
 //@ obligation: register succeeds <=> no descriptor id of the collector is registered AND its ids are pairwise distinct AND every descriptor agrees in dimension hash with the name's recorded one; on Ok exactly the collector, its ids and its (name -> dim) entries are added; on Err the registry is EXACTLY as before on all three components (collectors, descriptor ids, recorded dimensions); AlreadyReg for an equal descriptor
@@ -255,4 +255,29 @@ fn c06_register_into_empty() {
         }
     }
     core::mem::forget(r);
+}
+
+//@ id: c06_unregister_overlapping_is_refused_without_trace
+//@ prop: C06
+//@ tier: quick
+//@ strength: bounded(registry holding one collector {x}; unregister of a NEVER-registered collector with two descriptors {x, z} that overlaps it), complete in ids
+//@ fn: registry::RegistryCore::unregister
+//@ obligation: unregistering a collector that is not registered fails and leaves the registry exactly as it was, also when one of its descriptors belongs to a registered collector (the registered descriptor id must stay, so that an equal descriptor is still refused)
+#[kani::proof]
+#[kani::unwind(4)]
+#[kani::stub(alloc::fmt::format, stub_format)]
+fn c06_unregister_overlapping_is_refused_without_trace() {
+    let x: u64 = kani::any();
+    let dx: u64 = kani::any();
+    let z: u64 = kani::any();
+    kani::assume(z != 0 && z != x); // the collector {x, z} has another collector id than {x}
+    let mut r = state(true, x, dx);
+    let c = HC { n: 2, d0: desc_with("", x, dx), d1: desc_with("a", z, dx), emit: 0, kind: MetricType::COUNTER, v0: 0.0, v1: 0.0 };
+    let before = view(&r, x);
+    let res = r.unregister(Box::new(c));
+    let after = view(&r, x);
+    assert!(res.is_err(), "C06.unregister: succeeded for a collector that was never registered");
+    assert!(after.ncoll == before.ncoll && after.nids == before.nids && after.has_x, "C06.unregister: a failed unregister removed a descriptor id of another, registered collector");
+    assert!(after.ndims == before.ndims, "C06.unregister: failed call changed the recorded dimensions");
+    core::mem::forget((r, res));
 }
